@@ -87,7 +87,7 @@ func genC14(t *rapid.T) C14Case {
 		case "submit1", "submit2":
 			ni := rapid.IntRange(0, 4).Draw(t, "nintents")
 			for j := 0; j < ni; j++ {
-				in := kit.GenIntent(t, []string{"pay", "pay", "merge", "merge", "sf", "form", "arb"}, 0)
+				in := kit.GenIntent(t, []string{"pay", "pay", "merge", "merge", "sf", "form", "form", "fcop", "fcop", "arb"}, 0)
 				if in.Kind == "merge" {
 					in.To = in.Who
 				}
@@ -631,6 +631,11 @@ func runC14(c C14Case, cs *kit.CaseStats) error {
 				}
 				if len(seen) != len(wantAnc) {
 					return fmt.Errorf("%s: UnconfirmedParents returned %d of %d pooled ancestors", where, len(seen), len(wantAnc))
+				}
+				for _, r := range target.FileContractRevisions {
+					if _, ok := creators[types.Hash256(r.ParentID)]; ok {
+						cs.Class("unconfirmed-parents-through-a-pooled-contract")
+					}
 				}
 				if len(wantAnc) > 0 {
 					cs.Class("unconfirmed-parents-query")
